@@ -43,6 +43,8 @@ FLAVOURS = {
     'clang1':   ('clang++', ['-O1', '-g0', '-fconstexpr-steps=2000000000', '-fbracket-depth=1024']),
     'asan':     ('clang++', ['-O1', '-g', '-fno-omit-frame-pointer', '-fsanitize=address,undefined', '-fno-sanitize=object-size',
                              '-fno-sanitize-recover=all', '-D_GLIBCXX_ASSERTIONS', '-fconstexpr-steps=2000000000', '-fbracket-depth=1024']),
+    'asan0':    ('clang++', ['-O0', '-g', '-fno-omit-frame-pointer', '-fsanitize=address,undefined', '-fno-sanitize=object-size',
+                             '-fno-sanitize-recover=all', '-D_GLIBCXX_ASSERTIONS', '-fconstexpr-steps=2000000000', '-fbracket-depth=1024']),
     'gasan':    ('g++',     ['-O1', '-g', '-fno-omit-frame-pointer', '-fsanitize=address,bounds', '-fno-sanitize-recover=all',
                              '-D_GLIBCXX_ASSERTIONS', '-fconstexpr-ops-limit=2000000000', '-fconstexpr-loop-limit=100000000']),
     'tsan':     ('g++',     ['-O1', '-g', '-fsanitize=thread', '-fconstexpr-ops-limit=2000000000', '-fconstexpr-loop-limit=100000000']),
